@@ -160,3 +160,87 @@ def guard_chain(pm, node, stop):
         child = cur
         cur = pm.get(id(cur))
     return out
+
+
+def single_assignments(fnode):
+    """{name: value expression} for local names assigned exactly once in the function (plain ``name = expr``), and never
+    augmented / deleted / used as a loop or with target."""
+    import collections
+    count = collections.Counter()
+    val = {}
+    for n in ast.walk(fnode):
+        if isinstance(n, ast.Name) and isinstance(n.ctx, (ast.Store, ast.Del)):
+            count[n.id] += 1
+        if isinstance(n, ast.Assign) and len(n.targets) == 1 and isinstance(n.targets[0], ast.Name):
+            val[n.targets[0].id] = n.value
+    params = {a.arg for a in fnode.args.posonlyargs + fnode.args.args + fnode.args.kwonlyargs}
+    mutated = set()
+    for n in ast.walk(fnode):
+        if isinstance(n, ast.Subscript) and isinstance(n.ctx, (ast.Store, ast.Del)) and isinstance(n.value, ast.Name):
+            mutated.add(n.value.id)
+        elif isinstance(n, ast.Call) and isinstance(n.func, ast.Attribute) and isinstance(n.func.value, ast.Name) and \
+                n.func.attr in ('append', 'add', 'extend', 'insert', 'remove', 'pop', 'clear', 'update', 'setdefault', 'discard', 'sort', 'reverse', 'popitem'):
+            mutated.add(n.func.value.id)
+        elif isinstance(n, ast.AugAssign) and isinstance(n.target, ast.Name):
+            mutated.add(n.target.id)
+
+    def container(v):
+        # an empty container is created to be filled
+        return (isinstance(v, ast.Dict) and not v.keys) or (isinstance(v, (ast.List, ast.Set)) and not v.elts) or \
+            (isinstance(v, ast.Call) and isinstance(v.func, ast.Name) and v.func.id in ('dict', 'list', 'set', 'OrderedDict', 'defaultdict')
+             and not v.args and not v.keywords)
+    # a name bound several times to the same side-effect free path (an alias such as `vs = self.viewer_state`) counts as bound once
+    allvals = collections.defaultdict(list)
+    for n in ast.walk(fnode):
+        if isinstance(n, ast.Assign) and len(n.targets) == 1 and isinstance(n.targets[0], ast.Name):
+            allvals[n.targets[0].id].append(n.value)
+
+    def path(v):
+        return isinstance(v, ast.Name) or (isinstance(v, ast.Attribute) and path(v.value))
+
+    def once(k):
+        if count[k] == 1:
+            return True
+        vs = allvals.get(k, [])
+        return len(vs) == count[k] and all(path(v) for v in vs) and len({ast.dump(v) for v in vs}) == 1
+    return {k: v for k, v in val.items() if once(k) and k not in params and k not in mutated and not container(v)}
+
+
+def expand_locals(fnode, expr, depth=4):
+    """``expr`` with every single-assignment local replaced by its defining expression (repeatedly): `c = type(o); c.__name__`
+    reads as `type(o).__name__`.  Sound for recognition purposes when the definitions are side-effect free."""
+    import copy
+    defs = single_assignments(fnode)
+
+    class S(ast.NodeTransformer):
+        def visit_Name(self, n):
+            if isinstance(n.ctx, ast.Load) and n.id in defs and not isinstance(defs[n.id], (ast.Lambda,)):
+                return copy.deepcopy(defs[n.id])
+            return n
+    e = copy.deepcopy(expr)
+    for _ in range(depth):
+        before = ast.dump(e)
+        e = S().visit(e)
+        if ast.dump(e) == before:
+            break
+    return e
+
+
+def iterations(node, nested=True):
+    """Every iteration written in ``node``: ``(iter expr, target, owner node, kind)`` for ``for`` loops ('for') and for the
+    generators of comprehensions / generator expressions ('comp').  A loop and a comprehension over the same collection
+    examine the same elements; rules that ask "is every element looked at?" should accept both."""
+    out = []
+    for n in ast.walk(node):
+        if isinstance(n, (ast.For, ast.AsyncFor)):
+            out.append((n.iter, n.target, n, 'for'))
+        elif isinstance(n, (ast.ListComp, ast.SetComp, ast.GeneratorExp, ast.DictComp)):
+            for g in n.generators:
+                out.append((g.iter, g.target, n, 'comp'))
+    return out
+
+
+def short_circuits(pm, comp):
+    """Is the comprehension consumed by something that may stop early (any / all / next / in)?"""
+    par = pm.get(id(comp))
+    return isinstance(par, ast.Call) and isinstance(par.func, ast.Name) and par.func.id in ('any', 'all', 'next')
